@@ -134,3 +134,89 @@ def run(unit, em):
                 else:
                     f, line, _ = unit.loc(wit)
                     em.violation(site, name, 'the recycled frame\'s %s can be used at line %d (%s) without having been cleared since the push: it still holds entries of an earlier emulated call' % (F, line, unit.text(wit, 50)))
+
+
+# ---- clause `register`: the argument registers of the emulated calls are not read stale in the frame's own loop
+def run_registers(unit, em):
+    """Registers = locals that the return sequence restores from the frame right before `pop(top)` (`S = top.P_B; r_i =
+    top.p_S;`): between calls they hold the arguments of the *last* emulated call, not the data of the current frame (that
+    is `top.<field>`).  Instance: every read of a register inside the outermost loop of the frame code.  Obligation: on
+    every path from the start of an iteration of that loop to the read the register is assigned (it is the argument being
+    prepared for, or just used by, a call of this iteration).  A read that an iteration can reach without any assignment
+    sees whatever the last call of an earlier iteration left there (seed C19-6: the leaf test iterated `S` instead of
+    `top.P_B`; the verdict then depends on the order in which the symbols are visited)."""
+    for fn in unit.functions:
+        if fn.body is None:
+            continue
+        pops = [c for c in fn.calls() if c['k'] == 'CXXMemberCallExpr' and method_name(c) == 'pop' and (c.get('q') or '').endswith('ExpandCallEmulator::pop')]
+        if not pops:
+            continue
+        regs = {}
+        for pcall in pops:
+            topv = strip(pcall['args'][0]) if pcall.get('args') else None
+            par = pcall.get('_p')
+            while par is not None and par['k'] != 'CompoundStmt':
+                par = par.get('_p')
+            if par is None or topv is None:
+                continue
+            for s in par.get('ch', []):
+                if any(x is pcall for x in walk(s)):
+                    break
+                a = strip(s)
+                if a is not None and a['k'] in ('BinaryOperator', 'CXXOperatorCallExpr') and a.get('op') == '=':
+                    ops = a.get('ch') if a['k'] == 'BinaryOperator' else a.get('args')
+                    l, r = strip(ops[0]), strip(ops[1])
+                    if l is not None and l['k'] == 'DeclRefExpr' and l.get('dk') == 'local' and r is not None and r['k'] == 'MemberExpr':
+                        rb = strip((r.get('ch') or [None])[0])
+                        if rb is not None and rb.get('d') == topv.get('d') and 'retAddr' not in (l.get('n') or '') and unit.ty(l).strip() not in ('unsigned char', 'int', 'unsigned int'):
+                            regs[l['d']] = l.get('n')
+        if not regs:
+            continue
+        cfg = fn.cfg()
+        if cfg is None:
+            continue
+        loops = [n for n in fn.walk(lambdas=False) if n['k'] in ('ForStmt', 'WhileStmt', 'DoStmt', 'CXXForRangeStmt')]
+        outer = [L for L in loops if not any(L is not M and any(x is L for x in walk(M)) for M in loops)]
+        outer = [L for L in outer if any(any(x is p_ for x in walk(L)) for p_ in pops)]
+        if not outer:
+            continue
+        L = outer[0]
+        body = L['body']
+        first = None
+        for m in walk(body):
+            if m is not body and cfg.locate(m) is not None:
+                first = m
+                break
+        if first is None:
+            continue
+        for d, name in regs.items():
+            def is_def(n, d=d):
+                if n['k'] in ('BinaryOperator', 'CXXOperatorCallExpr') and n.get('op') == '=':
+                    ops = n.get('ch') if n['k'] == 'BinaryOperator' else n.get('args')
+                    return ops and (strip(ops[0]) or {}).get('d') == d
+                return False
+            reads = []
+            for n in walk(body, lambdas=False):
+                if n['k'] == 'DeclRefExpr' and n.get('d') == d:
+                    p = n.get('_p')
+                    while p is not None and p['k'] in ('ImplicitCastExpr', 'ParenExpr'):
+                        p = p.get('_p')
+                    if p is not None and is_def(p) and strip((p.get('ch') or p.get('args'))[0]) is n:
+                        continue
+                    reads.append(n)
+            for r in reads:
+                rid = id(r)
+                ok, _ = must_pass_through(cfg, cfg.locate(first), lambda n: id(n) == rid, is_def, start_after=False)
+                txt = '%s read at line %d' % (name, unit.loc(r)[1])
+                if ok:
+                    em.ok(r, txt, 'assigned earlier in the same iteration of the frame loop', 'register')
+                else:
+                    em.violation(r, txt, 'the argument register `%s` is read here although an iteration of the frame loop can reach this point without assigning it: it then still holds the argument of the last emulated call of an earlier iteration, not the data of this frame (use the frame field restored into it by the return sequence)' % name, 'register')
+
+
+_run_frames = run
+
+
+def run(unit, em):
+    _run_frames(unit, em)
+    run_registers(unit, em)
